@@ -35,6 +35,9 @@ def d1(ctx, prog):
         v = b.value
         good = isinstance(v, (ast.List, ast.Tuple)) and len(v.elts) == 2 and all(
             isinstance(e, ast.Call) and prog.dotted(run.mod, e.func) == f'{TT}.TTestThreadAccumulator' for e in v.elts)
+        # a comprehension constructs a new object per iteration (`[X()] * 2` would not)
+        good = good or (isinstance(v, ast.ListComp) and isinstance(v.elt, ast.Call) and prog.dotted(run.mod, v.elt.func) == f'{TT}.TTestThreadAccumulator'
+                        and len(v.generators) == 1 and not v.generators[0].ifs and norm(v.generators[0].iter).replace(' ', '') == 'range(2)')
         ctx.check(good, 'C09-D1', f'{run.key}::{norm(b)[:100]}',
                   'the two trace sets do not get two separately constructed accumulators (a shared object would be written by both threads)',
                   'two separately constructed accumulator objects', run.where(b))
@@ -167,7 +170,8 @@ def d4(ctx, prog):
               'join() waits for the thread first', join.where())
     # (c) analysis run: a raising join/compute inside the try body propagates and _compute is not reached
     from .. import inline
-    arun = inline.inlined(prog, prog.resolve_method(ana, 'run'), skip={'_compute'})
+    from .. import normalize as _nz
+    arun = _nz.normal(prog, prog.resolve_method(ana, 'run'), skip={'_compute'})      # helpers inlined, attribute aliases propagated
     def calls_in_body(t, name):
         return any(isinstance(c, ast.Call) and isinstance(c.func, ast.Attribute) and c.func.attr == name for b in t.body for c in ast.walk(b))
     trys = [t for t in ast.walk(arun.node) if isinstance(t, ast.Try) and calls_in_body(t, 'join') and calls_in_body(t, 'compute')]
@@ -212,7 +216,8 @@ def d4(ctx, prog):
               'no swallowing handler around join()/compute()', arun.where(t))
     # both accumulators are joined and computed in the try body
     loops = [n for b in t.body for n in ast.walk(b) if isinstance(n, ast.For)]
-    good = any(norm(l.iter) == 'self.accumulators' and
+    _ld = astutil.local_defs(arun.node)
+    good = any(norm(astutil.expand_locals(l.iter, _ld)) == 'self.accumulators' and
                [c.func.attr for s in l.body for c in ast.walk(s) if isinstance(c, ast.Call) and isinstance(c.func, ast.Attribute)
                 and norm(c.func.value) == l.target.id][:2] == ['join', 'compute'] for l in loops if isinstance(l.target, ast.Name))
     ctx.check(good, 'C09-D4', f'{arun.key}::join then compute', 'not every accumulator is joined and then computed before the result is formed',
@@ -361,6 +366,66 @@ def d6(ctx, prog, kernel):
     return n
 
 
+def d9(ctx, prog):
+    """the statistic as a rational function of the two accumulators (sa.ratfun): accumulator.compute() gives mean = S/n and
+    var = Q/n - mean^2; TTestAnalysis._compute combines them; the result must be the same function as Welch's
+    t = (S1/n1 - S2/n2) / sqrt(var1/n1 + var2/n2) with the population variances - equal squares by cross-multiplication, equal sign."""
+    from .. import ratfun
+    from ..ratfun import Poly, RF
+    acc = prog.need_class(TT, 'TTestThreadAccumulator')
+    ana = prog.need_class(TT, 'TTestAnalysis')
+    comp, fin = acc.methods.get('compute'), ana.methods.get('_compute')
+    key = f'{fin.key if fin else ana.key}::formula'
+    if comp is None or fin is None:
+        ctx.undecided('C09-D9', key, 'compute / _compute not found', ana.mod.relpath)
+        return 0
+    try:
+        per = {}
+        for i in (1, 2):
+            ratfun.run_function(comp.node, {'self.sum': f'S{i}', 'self.sum_squared': f'Q{i}', 'self.processed_traces': f'n{i}'})
+            at = ratfun.run_function.last_attrs
+            if 'self.mean' not in at or 'self.var' not in at:
+                raise ratfun.Unknown('compute() does not store mean and var')
+            per[i] = at
+        # names of the two accumulators in _compute: `a, b = self.accumulators`
+        names = None
+        for st in ast.walk(fin.node):
+            if isinstance(st, ast.Assign) and len(st.targets) == 1 and isinstance(st.targets[0], ast.Tuple) and len(st.targets[0].elts) == 2 and norm(st.value) == 'self.accumulators':
+                names = [x.id for x in st.targets[0].elts]
+        if names is None:
+            names = ['self.accumulators[0]', 'self.accumulators[1]']
+        seeds = {}
+        for i, nm in zip((1, 2), names):
+            seeds[f'{nm}.mean'] = per[i]['self.mean']
+            seeds[f'{nm}.var'] = per[i]['self.var']
+            seeds[f'{nm}.processed_traces'] = f'n{i}'
+            seeds[f'{nm}.sum'] = f'S{i}'
+            seeds[f'{nm}.sum_squared'] = f'Q{i}'
+        outs = ratfun.run_function(fin.node, seeds)
+        got = ratfun.run_function.last_attrs.get('self.result') or (outs[0][0] if outs else None)
+        if got is None:
+            raise ratfun.Unknown('the result of _compute was not found')
+        S = Poly.sym
+        one = Poly.const(1)
+        m1, m2 = RF(S('S1'), S('n1')), RF(S('S2'), S('n2'))
+        v1 = RF(S('Q1'), S('n1')).add(m1.mul(m1), -1)
+        v2 = RF(S('Q2'), S('n2')).add(m2.mul(m2), -1)
+        den = v1.mul(RF(S('n1')), -1).add(v2.mul(RF(S('n2')), -1))
+        ref = m1.add(m2, -1).mul(ratfun.Eval({}).sqrt(den), -1)
+        ok = ratfun.same_square(got, ref)
+        why = 'its square is not the square of the Welch statistic (another function of the sums and counts)'
+        if ok:
+            sg, sr = ratfun.sign_profile(got, 'S1'), ratfun.sign_profile(ref, 'S1')
+            if sg is None:
+                raise ratfun.Unknown('sign of the mean difference not determined')
+            ok, why = sg == sr, 'the sign is reversed (set 2 minus set 1)'
+        ctx.check(ok, 'C09-D9', key, f'what the analysis computes is not (mean1 - mean2) / sqrt(var1/n1 + var2/n2) with population variances: {why}',
+                  'the result is Welch\'s t as a rational function of (S1, Q1, n1, S2, Q2, n2) (normal forms cross-multiplied)', fin.where())
+    except ratfun.Unknown as e:
+        ctx.undecided('C09-D9', key, f'formula not derivable: {e}', fin.where())
+    return 1
+
+
 def run(ctx, prog):
     from .. import universe as _uni0
     _uni0.inline_base_entry_points(ctx, prog)
@@ -411,5 +476,7 @@ def run(ctx, prog):
         ctx.undecided('C09-D8', k8, f'how the batch reaches the kernel is not understood: {t8}', upd.where(n8))
     ctx.rule('C09-D6', 'dimensional analysis: sum u n, sum_squared u^2 n, count n (from the kernel and update); mean u, var u^2 from homogeneous expressions; t statistic u^0 n^(1/2); each variance divided by the count of its own accumulator')
     ctx.floor('dimension obligations (t-test)', d6(ctx, prog, k), 4)
+    ctx.rule('C09-D9', 'rational-function normal form: mean = S/n, var = Q/n - mean^2, t = (mean1 - mean2) / sqrt(var1/n1 + var2/n2) as a function of the accumulated sums and counts')
+    ctx.floor('t statistic compared with its definition', d9(ctx, prog), 1)
     ctx.floor('prange loops in the t-test kernel', n, 1)
     ctx.floor('C01 obligations on the t-test accumulator', len(sub.obs), 6)
